@@ -114,7 +114,9 @@ def random_traces(d, p, seed, num, length):
     """Random behaviours driven by the harness itself (implementation -> specification direction)."""
     prm = os.path.join(d, "rand.json")
     with open(prm, "w") as f:
-        json.dump({"keys": p["keys"], "weights": p["weights"], "hints": p["hints"], "phantoms": p["phantoms"],
+        keys = [k for k in p["keys"] if k != p.get("reserve")]
+        json.dump({"keys": keys, "reserve": p.get("reserve"), "weights": p["weights"], "hints": p["hints"],
+                   "phantoms": p["phantoms"],
                    "caps": p["caps"], "init_caps": p["init_caps"], "ops": p["ops"], "max_held": p["max_held"],
                    "max_ins": p["max_ins"], "len": length, "num": num}, f)
     trace = os.path.join(d, "trace_rand.ndjson")
